@@ -143,7 +143,7 @@ SPECS['C16'] = dict(
           'time-of-day expansion present; distinct = hash of the calendar text'),
     assumptions=['nothing is asserted about which dates are produced (C01/C17 do that)',
                  'the lower bound for a Hijri DTSTART is not asserted (its Gregorian image is C15\'s subject)'],
-    quick=dict(workers=16, cases=300, size=100, timeout=1500),
+    quick=dict(workers=16, cases=2000, size=100, timeout=1500),
     thorough=dict(workers=16, cases=20000, size=100, timeout=7200),
 )
 
